@@ -124,6 +124,9 @@ def side_file_views(world):
     return res
 
 
+SIBLING_LIB = {"shelf.py": "def put(x):\n    return x\n\n\nclass Shelf:\n    def add(self, item):\n        return item\n"}
+
+
 class ReopenEngine(Engine):
     prop = PROP
     name = "reopen"
@@ -170,6 +173,14 @@ class ReopenEngine(Engine):
             init = gen.gen_program(rng, swarm)
         else:
             init = gen.gen_tree(rng, swarm)
+        if swarm["validate_objectdb"] and rng.random() < 0.5:
+            # project code calls into a library outside the project: analysis stores what it learns
+            # about that library's functions under the library's absolute path
+            swarm["sibling_lib"] = True
+            swarm["oi_w"] = max(swarm["oi_w"], 2)
+            init = [e for e in init if e["p"] != "uses_shelf.py"] + [
+                {"p": "uses_shelf.py", "text": "import shelf\n\n\nclass Apple:\n    pass\n\n\nr = shelf.put(Apple())\nk = shelf.Shelf().add(Apple())\n",
+                 "nl": "lf", "enc": "utf-8", "cls": None, "cookie": None}]
         base = gen.tree_model_of(init)
         classes = gen.file_classes(init)
         model = HistoryModel(base, swarm["limit"])
@@ -196,6 +207,8 @@ class ReopenEngine(Engine):
                 key = rng.choice(["", "f", "C.m", "0", "日本"])
                 if swarm["validate_objectdb"]:
                     pys = [f for f in files if f.endswith(".py")]
+                    if swarm.get("sibling_lib") and "uses_shelf.py" in pys and rng.random() < 0.5:
+                        pys = ["uses_shelf.py"]
                     steps.append({"op": "analyze", "path": rng.choice(pys) if pys else path})
                     continue
                 if rng.random() < 0.2:
@@ -243,8 +256,9 @@ class ReopenEngine(Engine):
             prefs["automatic_soa"] = True
         late = bool(swarm.get("late_enable_objectdb"))
         first = dict(prefs, save_objectdb=False) if late else prefs
-        A = World(trace["init"], limit=limit, ropefolder=ROPEFOLDER, prefs=first, tag="c12a-")
-        B = World(trace["init"], limit=limit, ropefolder=ROPEFOLDER, prefs=first, tag="c12b-")
+        lib = SIBLING_LIB if swarm.get("sibling_lib") else None
+        A = World(trace["init"], limit=limit, ropefolder=ROPEFOLDER, prefs=first, tag="c12a-", lib=lib)
+        B = World(trace["init"], limit=limit, ropefolder=ROPEFOLDER, prefs=first, tag="c12b-", lib=lib)
         if late:
             # the preference is switched on while the project is open (it is a live preference)
             for w in (A, B):
@@ -472,6 +486,10 @@ class ReopenEngine(Engine):
         if B.prefs.get("validate_objectdb"):
             # entries of files that no longer exist are dropped when the project is opened: by design
             live = {k for k, v in B.snapshot().items() if isinstance(v, bytes)}
+            # (information about modules outside the project is stored under their absolute path)
+            live |= {k for k in set(o_before) | set(o_after) if os.path.isabs(k) and os.path.isfile(k)}
+            if any(os.path.isabs(k) for k in o_before if k in live):
+                out.stats["probe_reopen_with_out_of_project_info"] += 1
             o_before = {k: v for k, v in o_before.items() if k in live}
             o_after = {k: v for k, v in o_after.items() if k in live}
             if "objectdb" in side:
